@@ -17,6 +17,45 @@ var scriptForms = []string{"<script>%s</script>", "<SCRIPT>%s</SCRIPT>", "<ScRiP
 	"<plaintext><script>%s</script>", "<script id=a/>%s</script>", "<STYLE/>%s</STYLE>", "<ſcript>%s</ſcript>", "<script x=\">\">%s</script>", "<svg><style/>%s</style></svg>", "<script>%s</scrip>x</script>",
 	"<script><!--%s--></script>", "<style><![CDATA[%s]]></style>", "<div><script defer>%s</script ></div>", "<script\x00>%s</script>", "<script/x>%s</script>", "<style>%s</style/>", "<object><script>%s</script></object>"}
 
+// fragments that drive the tokenizer through the script data (double) escaped states
+var scriptStateFrags = []string{"<!--", "-->", "<script>", "<script ", "<SCRIPT>", "</script>", "</script ", "</SCRIPT>", "<0", "<", "<<", "--", "-", ">", "x", "<scriptx>", "</scriptx>", "<!-", "<!", "</", "<a>", "a<b", " ", "<script/", "</script/"}
+
+// genScriptStates: one script element whose content walks through the escaped / double escaped
+// states of the standard, markers in between, ordinary markup and a marker after it.
+func genScriptStates(t *rapid.T) string {
+	var sb strings.Builder
+	sb.WriteString(rapid.SampledFrom([]string{"<script>", "<script>", "<SCRIPT type=x>", "<script\n>"}).Draw(t, "open"))
+	n := rapid.IntRange(2, 10).Draw(t, "nfrag")
+	mk := 0
+	for i := 0; i < n; i++ {
+		if rapid.IntRange(0, 2).Draw(t, "mk") == 0 {
+			mk++
+			sb.WriteString(fmt.Sprintf("MK%04dQ", mk))
+		}
+		sb.WriteString(rapid.SampledFrom(scriptStateFrags).Draw(t, "frag"))
+	}
+	mk++
+	sb.WriteString(fmt.Sprintf("MK%04dQ</script>", mk))
+	sb.WriteString(fmt.Sprintf("<b>MK%04dQ</b>", mk+1))
+	return sb.String()
+}
+
+// scriptStartLen: length of the script start tag at the beginning of in, or 0.
+func scriptStartLen(in string) int {
+	if len(in) < 8 || asciiLower(in[:7]) != "<script" {
+		return 0
+	}
+	// the tag name must END after "script": <script\x00> or <scriptx> are other elements
+	if !strings.ContainsRune(" \t\n\f\r>", rune(in[7])) {
+		return 0
+	}
+	i := strings.IndexByte(in, '>')
+	if i < 0 || strings.ContainsAny(in[7:i], "\"'/=") {
+		return 0
+	}
+	return i + 1
+}
+
 func genC05(t *rapid.T) *Case {
 	spec := genSpec(t, nil)
 	// bias: try hard to allow script/style
@@ -38,6 +77,9 @@ func genC05(t *rapid.T) *Case {
 		spec.Ops = append(spec.Ops, nr(Op{Kind: "AllowAttrs", Attrs: []string{"src", "type", "media", "id"}, Scope: "els", Names: []string{"script", "style"}}))
 	}
 	m := BuildModel(spec)
+	if rapid.IntRange(0, 5).Draw(t, "scriptStates") == 0 {
+		return &Case{Spec: spec, Input: BStr(genScriptStates(t)), Kind: "script-states"}
+	}
 	var sb strings.Builder
 	k := rapid.IntRange(1, 4).Draw(t, "nforms")
 	for i := 0; i < k; i++ {
@@ -104,6 +146,28 @@ func checkC05(c *Case, r *Rec) error {
 				if strings.Contains(out, mk) || strings.Contains(decodedOut, mk) {
 					return violation(out, "C05(2): text %s from inside a %s element appears in the output", mk, tk.Name)
 				}
+			}
+		}
+	}
+	// (3) the same for a leading script element, its extent taken from a transcription of the
+	// standard's script data states instead of the tokenizer the sanitiser itself uses
+	if n := scriptStartLen(in); n > 0 {
+		body := in[n:]
+		stdEnd := scriptDataEnd(body)
+		xnetEnd := 0
+		if len(its) > 1 && its[1].Type == html.TextToken {
+			xnetEnd = len(its[1].Raw)
+		}
+		if stdEnd != xnetEnd {
+			r.Class("standard_and_tokenizer_disagree_on_script_end")
+		}
+		for _, mk := range markersIn(body[:stdEnd]) {
+			if strings.Contains(out, mk) || strings.Contains(decodedOut, mk) {
+				if c.Kind != "strict-replay" && xnetEnd < stdEnd && !strings.Contains(body[:xnetEnd], mk) && knownClassEnabled("C05", "tokenizer_leaves_script_data_escaped_state_early") {
+					r.Excluded("tokenizer_leaves_script_data_escaped_state_early")
+					continue
+				}
+				return violation(out, "C05(3): text %s lies inside the leading script element as the HTML standard delimits it (its end tag begins at offset %d of the content; the tokenizer in use ends it at %d) but appears in the output", mk, stdEnd, xnetEnd)
 			}
 		}
 	}
